@@ -457,6 +457,16 @@ def run(ctx: Ctx, tier: str) -> Result:
     pl = p.func(VP + ".process_list_breadth_first")
     nl = ctor_calls(ctx, pl, "deep.processor.bfs.NodeValue")
     okl = False
+    if len(nl) == 1 and len(nl[0].args) < 2 and nl[0].keywords:
+        # the two arguments given by keyword: read as (name, value) in the constructor's order
+        nvi_ = p.cls("deep.processor.bfs.NodeValue").lookup("__init__")
+        ba_ = t.bind_args(nvi_, nl[0])
+        pos_ = [ba_.get(q_) for q_ in nvi_.params[1:3]]
+        if all(x_ is not None for x_ in pos_):
+            import copy as _copy
+            c2_ = _copy.copy(nl[0])
+            c2_.args = pos_
+            nl = [c2_]
     if len(nl) == 1 and len(nl[0].args) >= 2:
         from .c05 import enumerate_index
         lps = [l for l in t.nodes_in(pl, ast.For)]
